@@ -35,6 +35,7 @@ type Violation struct {
 	Op    *COp     `json:"op,omitempty"`
 	World string   `json:"world,omitempty"` // which world (primary / shadow)
 	Facts []string `json:"facts,omitempty"`
+	Also  []string `json:"also,omitempty"` // further violation classes the same observation establishes
 }
 
 func (v *Violation) Error() string { return fmt.Sprintf("[%s] step %d: %s", v.Class, v.Step, v.Msg) }
@@ -124,6 +125,8 @@ type Engine struct {
 	lastShadow    map[*Shadow]Result
 	lastGot       []Ev
 	rmOrder       []ecs.Entity
+	forceQ        bool
+	noHook        bool // never touch the package-level hook (several engines on real goroutines)
 }
 
 func NewEngine(p *Plan) *Engine {
@@ -155,6 +158,20 @@ func NewEngine(p *Plan) *Engine {
 }
 
 func (e *Engine) listening() bool { return e.S.lis != nil }
+
+func (e *Engine) logEnt(h ecs.Entity) { e.log.U64(uint64(h.ID())<<32 | uint64(h.Generation())) }
+
+func (e *Engine) logEnts(tag string, l []ecs.Entity) {
+	e.log.Str(tag)
+	e.log.U64(uint64(len(l)))
+	for _, h := range l {
+		e.logEnt(h)
+	}
+}
+
+// ObsDigest is the digest of everything observable the run produced, in order: outcomes, returned handles,
+// every query's visiting order, every event with content, counts, and the final entity dump (C13).
+func (e *Engine) ObsDigest() uint64 { return e.log.Sum() }
 
 func (e *Engine) addSlot(spec *FilterSpec) {
 	e.Slots = append(e.Slots, spec)
@@ -211,7 +228,10 @@ func (e *Engine) issue(op *COp, why string) (Result, bool, *Violation) {
 	}
 	res := e.S.Apply(op)
 	e.log.Str(op.Kind)
+	e.log.Str(op.Variant)
 	e.log.U64(b2u(res.Panicked))
+	e.log.U64(uint64(res.Count))
+	e.logEnt(res.Ent)
 	if expectPanic && !res.Panicked {
 		if lockedNow {
 			return res, false, e.viol("lock-not-enforced", op, "%s %s succeeded on a locked world (%d open queries)", op.Kind, op.Variant, len(e.Open))
@@ -311,7 +331,9 @@ func describe(op *COp, why string, locked bool) string {
 // Run executes a trace. It returns the first violation, or nil.
 func (e *Engine) Run(tr *Trace) (v *Violation) {
 	defer func() {
-		ecs.VerifPoint = nil
+		if !e.noHook {
+			ecs.VerifPoint = nil
+		}
 		if r := recover(); r != nil {
 			// a panic that escaped: from the oracle's own observation calls (which are legal reads)
 			buf := make([]byte, 4096)
@@ -330,6 +352,38 @@ func (e *Engine) Run(tr *Trace) (v *Violation) {
 	return e.finish()
 }
 
+// StepOnce executes step i of the trace (for interleaving several engines in one goroutine).
+func (e *Engine) StepOnce(tr *Trace, i int) (v *Violation) {
+	defer func() {
+		if !e.noHook {
+			ecs.VerifPoint = nil
+		}
+		if r := recover(); r != nil {
+			buf := make([]byte, 4096)
+			n := runtime.Stack(buf, false)
+			v = e.viol("oracle-panic", nil, "observation panicked: %v\n%s", r, buf[:n])
+		}
+	}()
+	e.step = i
+	if v := e.doStep(&tr.Steps[i]); v != nil {
+		return v
+	}
+	e.St.Steps++
+	return nil
+}
+
+// Finish releases open queries, runs the recovery probe and logs the final dump.
+func (e *Engine) Finish() (v *Violation) {
+	defer func() {
+		if r := recover(); r != nil {
+			buf := make([]byte, 4096)
+			n := runtime.Stack(buf, false)
+			v = e.viol("oracle-panic", nil, "observation panicked: %v\n%s", r, buf[:n])
+		}
+	}()
+	return e.finish()
+}
+
 func (e *Engine) beginStep() {
 	e.expEvents = e.expEvents[:0]
 	e.expLockedAt = false
@@ -343,7 +397,7 @@ func (e *Engine) doStep(st *Step) *Violation {
 	e.gcAt = 0
 	if st.GC == 1 {
 		e.forceGC("gc-boundary")
-	} else if st.GC >= 3 {
+	} else if st.GC >= 3 && !e.noHook {
 		e.gcCount = 0
 		e.gcAt = st.GC - 2
 		ecs.VerifPoint = func(site int) {
@@ -416,14 +470,51 @@ func (e *Engine) doStep(st *Step) *Violation {
 	default:
 		e.St.Skipped++
 	}
-	ecs.VerifPoint = nil
+	if !e.noHook {
+		ecs.VerifPoint = nil
+	}
 	if v != nil {
-		return v
+		return e.twinDifferential(v)
 	}
 	if st.GC == 2 {
 		e.forceGC("gc-boundary")
 	}
-	return e.afterStep()
+	return e.twinDifferential(e.afterStep())
+}
+
+// twinDifferential: a violation in the primary world that the lock-step fresh twin (same registrations, same
+// post-reset history) does not show means the reset world does not behave like a fresh one (C15).
+func (e *Engine) twinDifferential(v *Violation) *Violation {
+	if v == nil || v.World != "primary" || e.resetCount == 0 {
+		return v
+	}
+	for _, sh := range e.Shadows {
+		if sh.Kind != "fresh" {
+			continue
+		}
+		clean := false
+		func() {
+			defer func() { recover() }()
+			switch v.Class {
+			case "unexpected-panic":
+				if v.Op != nil {
+					clean = !sh.S.Apply(v.Op).Panicked
+				}
+			case "no-panic", "target-accepted", "second-relation-accepted", "lock-not-enforced":
+				if v.Op != nil {
+					clean = sh.S.Apply(v.Op).Panicked
+				}
+			default:
+				sh.S.Events = nil
+				clean = e.checkAll(sh.S, "") == nil
+			}
+		}()
+		if clean {
+			v.Also = append(v.Also, "reset-diff")
+			v.Facts = append(v.Facts, "fresh-twin-is-clean")
+		}
+	}
+	return v
 }
 
 var clobberSink uint64
@@ -507,6 +598,13 @@ func (e *Engine) finish() *Violation {
 		return v
 	}
 	e.St.Shapes[e.S.W.VerifShape()] = struct{}{}
+	d := e.S.W.DumpEntities()
+	e.logEnts("dump", d.Entities)
+	e.log.U64(uint64(d.Next))
+	e.log.U64(uint64(d.Available))
+	for _, a := range d.Alive {
+		e.log.U64(uint64(a))
+	}
 	return nil
 }
 
